@@ -649,6 +649,15 @@ impl<D: Device, P: Protocol, S: Socket, TS: TimeSource> GenericCloud<D, P, S, TS
     }
 
     fn add_new_peer(&mut self, addr: SocketAddr, info: NodeInfo) -> Result<(), Error> {
+        // An unencrypted handshake contains nothing fresh from the responder, so a recorded one can be replayed
+        // from any address: it must never take the place of an encrypted connection
+        if let (Some(peer), Some(init)) = (self.peers.get(&addr), self.pending_inits.get(&addr)) {
+            if peer.crypto.is_ready() && !init.is_ready() {
+                info!("Ignoring unencrypted handshake from encrypted peer {}", addr_nice(addr));
+                self.pending_inits.remove(&addr);
+                return Ok(());
+            }
+        }
         info!("Added peer {}", addr_nice(addr));
         self.config.call_hook(
             "peer_connected",
